@@ -25,6 +25,7 @@ BLOCKS_A = {
     "params": ["int p1, int &p2"],
     "ldecl": ["int l1 = 3;", "clock lx;"],
     "inv": ["lx <= 10 &&", "g2 >= 0"],
+    "rate": ["g1 +", "  f(2)"],
     "select": ["s : int[0,3]"],
     "guard": ["g1 == 1 &&", "  f(l1) > 0 && s >= 0"],
     "sync": ["c!"],
@@ -38,9 +39,9 @@ BLOCKS_B.update({"gdecl": ["typedef int[0,5] Small;", "Small g1 = 1; int g2;", "
                            "int f(int q) { if (q > 2) { return 1; } return q + g1; }"],
                  "guard": ["forall (k : int[0,1]) g1 + k >= 0"], "assign": ["g2 = (g1 > 0 ? f(s) : l1)"],
                  "inv": ["lx <= g1 + 10"], "system": ["P1 = T(1, g2);", "P2 = T(2, g2);", "system P1, P2;"]})
-NON_DECLARING = {"inv", "guard", "sync", "assign", "guard2", "assign2"}
+NON_DECLARING = {"inv", "rate", "guard", "sync", "assign", "guard2", "assign2"}
 XPATH = {"gdecl": "/nta/declaration", "params": "/nta/template[1]/parameter", "ldecl": "/nta/template[1]/declaration",
-         "inv": "/nta/template[1]/location[1]/label[1]", "select": "/nta/template[1]/transition[1]/label[1]",
+         "inv": "/nta/template[1]/location[1]/label[1]", "rate": "/nta/template[1]/location[1]/label[2]", "select": "/nta/template[1]/transition[1]/label[1]",
          "guard": "/nta/template[1]/transition[1]/label[2]", "sync": "/nta/template[1]/transition[1]/label[3]",
          "assign": "/nta/template[1]/transition[1]/label[4]", "guard2": "/nta/template[1]/transition[2]/label[1]",
          "assign2": "/nta/template[1]/transition[2]/label[2]", "system": "/nta/system"}
@@ -83,10 +84,10 @@ def render(blocks, variant, only=None):
         return layout(blocks[name], variant if (only is None or only == name) else "plain")
     lab = lambda k, n: '<label kind="%s">%s</label>' % (k, b(n))       # noqa: E731
     t = ("<template><name>T</name><parameter>%s</parameter><declaration>%s</declaration>"
-         '<location id="id0"><name>L0</name>%s</location><location id="id1"><name>L1</name></location><init ref="id0"/>'
+         '<location id="id0"><name>L0</name>%s%s</location><location id="id1"><name>L1</name></location><init ref="id0"/>'
          '<transition><source ref="id0"/><target ref="id1"/>%s%s%s%s</transition>'
          '<transition><source ref="id1"/><target ref="id0"/>%s%s</transition></template>') % (
-        b("params"), b("ldecl"), lab("invariant", "inv"), lab("select", "select"), lab("guard", "guard"),
+        b("params"), b("ldecl"), lab("invariant", "inv"), lab("exponentialrate", "rate"), lab("select", "select"), lab("guard", "guard"),
         lab("synchronisation", "sync"), lab("assignment", "assign"), lab("guard", "guard2"), lab("assignment", "assign2"))
     return X.HEADER + "<nta><declaration>%s</declaration>%s<system>%s</system></nta>\n" % (b("gdecl"), t, b("system"))
 
@@ -247,7 +248,7 @@ def main():
     t = engine.tier()
     variants = LAYOUTS_T      # both tiers: all seven layouts, both base models (seconds)
     rep = engine.Report(PID, "fault_enumeration",
-                        "accepted base models (%s) x 11 text blocks (global/local declarations, parameters, invariant, select, guard, "
+                        "accepted base models (%s) x 12 text blocks (global/local declarations, parameters, invariant, exponential rate, select, guard, "
                         "synchronisation, update, second edge's guard and update, system) x faults {undeclared identifier, clock for "
                         "operand, token deleted, bracket deleted, stray ) ] }, semicolon deleted, side effect inserted, unterminated "
                         "comment} at every token position x layouts %s. distinct = (model, block, fault, token, layout)."
